@@ -31,6 +31,7 @@ class ClassInfo:
         self.module = module
         self.methods = {}
         self.attrs = {}       # class-level simple assignments: name -> ast expr
+        self.required = []    # annotated class-level names without a default (pydantic required fields)
         self.bases = []       # ast exprs
 
 
@@ -108,6 +109,8 @@ class Repo:
                         ci.attrs[sub.targets[0].id] = sub.value
                     elif isinstance(sub, ast.AnnAssign) and isinstance(sub.target, ast.Name) and sub.value is not None:
                         ci.attrs[sub.target.id] = sub.value
+                    elif isinstance(sub, ast.AnnAssign) and isinstance(sub.target, ast.Name):
+                        ci.required.append(sub.target.id)
                 m.classes[node.name] = ci
                 self.classes[ci.qualname] = ci
             elif isinstance(node, ast.Assign) and len(node.targets) == 1 and isinstance(node.targets[0], ast.Name):
